@@ -262,6 +262,23 @@ pub fn call_entry(entry: &Entry, s: &Spec, text: &str) -> Result<darling::Result
     call_entry_opt(entry, s, text, false)
 }
 
+/// FromAttributes only: the same attribute slice with the attributes selected by `mask` turned into inner-style
+/// attributes (`#![..]`, what `syn::ItemMod::attrs` / `syn::File::attrs` hold). Style is no part of selection.
+pub fn call_attrs_styled(entry: &Entry, s: &Spec, text: &str, mask: u64) -> Result<darling::Result<Val>, Fail> {
+    let mut di: syn::DeriveInput = syn::parse_str(text).map_err(|e| Fail::new("l3:harness-render", format!("`{}` is no item: {}", text, e)))?;
+    for (i, a) in di.attrs.iter_mut().enumerate() {
+        if mask >> (i % 64) & 1 == 1 {
+            a.style = syn::AttrStyle::Inner(Default::default());
+        }
+    }
+    let call = entry.call;
+    match catch(|| call(&In::Attrs(&di.attrs))) {
+        Ok(Some(r)) => Ok(r),
+        Ok(None) => Err(Fail::new("l3:harness-entry", "entry point does not match the receiver's trait")),
+        Err(p) => Err(Fail::new(format!("l3:panic:{}", vmodel::util::panic_sig(&p)), format!("receiver R{} panicked on `{}` (inner-style mask {:#x}): {}", s.id, text, mask, p))),
+    }
+}
+
 pub fn call_entry_opt(entry: &Entry, s: &Spec, text: &str, grouped_values: bool) -> Result<darling::Result<Val>, Fail> {
     call_fn(entry.call, s, text, grouped_values)
 }
@@ -804,7 +821,7 @@ pub fn main(specs_json: &str, registry: Vec<Entry>) {
     let ok = match args.sub.as_str() {
         "c01" | "c02" | "c03b" => run_struct_prop(&args, &reg),
         "c09" | "c03-enums" => enums::run(&args, &reg),
-        "c16" | "c03-body" | "c08-forward" | "c02-body" => magic::run(&args, &reg),
+        "c16" | "c03-body" | "c08-forward" | "c02-body" | "c18-body" => magic::run(&args, &reg),
         "c08" => partition::run(&args, &reg),
         "c17" => sugg::run(&args, &reg),
         "c18b" => shapes::run(&args, &reg),
